@@ -25,6 +25,7 @@ import (
 	"verif/harness/internal/hx"
 	"verif/harness/internal/mgrsim"
 	"verif/harness/internal/rng"
+	"verif/harness/internal/storeobs"
 	"verif/harness/internal/subs"
 )
 
@@ -86,6 +87,9 @@ type world struct {
 	revertedSinceCheck bool
 	rendered           int
 	force              bool
+	ops                []mgrsim.Op
+	f8At               int
+	f8                 bool
 }
 
 func newWorld(t *chaingen.Tree) *world {
@@ -98,11 +102,33 @@ func newWorld(t *chaingen.Tree) *world {
 		panic("c06: wallet address differs from the generator's address")
 	}
 	w.w = sw
+	w.f8At = -1
 	w.ab = newAbstraction(t, w.tw)
 	return w
 }
 
 func (w *world) close() { w.w.Close() }
+
+// differsByExpiryOrder lets the C02 judge decide, for the history so far, whether the node's
+// deviation from the linear replay is the known expiry-order finding.
+func (w *world) differsByExpiryOrder() bool {
+	if w.f8At == len(w.ops) {
+		return w.f8
+	}
+	w.f8At, w.f8 = len(w.ops), false
+	nd, err := storeobs.NewNode(w.t, chain.NewMemDB(), nil)
+	if err != nil {
+		return false
+	}
+	for _, op := range w.ops {
+		if o := nd.Do(op); o.Panic {
+			return false
+		}
+	}
+	f, _ := storeobs.Judge(nd, storeobs.NewTwins(w.t))
+	w.f8 = f != nil && f.Kind == storeobs.KindF8
+	return w.f8
+}
 
 func (w *world) report(kind, format string, a ...any) {
 	if w.fail == nil {
@@ -233,7 +259,11 @@ func (w *world) check() {
 	tipState := w.s.CM.TipState()
 	linearState := string(mgrsim.EncState(tipState)) == string(mgrsim.EncState(tipN.FullState))
 	if !linearState {
-		w.stats["tips-whose-state-differs-from-the-linear-replay"]++
+		if !w.differsByExpiryOrder() {
+			w.report("c06-state-differs-from-linear-replay", "the node's tip state at block %d differs from the linear replay of the same chain and the C02 judge does not attribute it to the expiration-list order", tipN.Idx)
+			return
+		}
+		w.stats["tips-whose-state-differs-from-the-linear-replay-by-expiry-order"]++
 	}
 	for id, e := range got {
 		t, ok := want[id]
@@ -405,6 +435,7 @@ func runCase(cs Case, t *chaingen.Tree) *world {
 		switch ev.K {
 		case "op":
 			o := w.s.Do(*ev.Op)
+			w.ops = append(w.ops, *ev.Op)
 			if o.Panic {
 				w.report("c06-manager-panic", "%v panicked: %s", ev.Op, o.ErrText)
 			}
